@@ -225,13 +225,23 @@ func redactFieldNamesFromPlanSummary(planSummary string) string {
 	if planSummary == "COLLSCAN" {
 		return planSummary
 	}
-	result := planSummary
-	fieldNames := ParsePlanSummary(planSummary)
-	for _, fieldName := range fieldNames {
-		hashed := HashName(fieldName)
-		result = strings.ReplaceAll(result, fieldName, hashed)
-	}
-	return result
+	// Rewrite each index key where it stands. (Replacing every parsed name across the whole
+	// summary corrupted pseudonyms already inserted and names that contain one another.)
+	return ixscanRegex.ReplaceAllStringFunc(planSummary, func(ixscan string) string {
+		open := strings.Index(ixscan, "{")
+		end := strings.LastIndex(ixscan, "}")
+		fields := strings.Split(ixscan[open+1:end], ",")
+		for i, field := range fields {
+			keyVal := strings.SplitN(field, ":", 2)
+			key := strings.TrimSpace(keyVal[0])
+			if key == "" {
+				continue
+			}
+			keyVal[0] = strings.Replace(keyVal[0], key, HashName(key), 1)
+			fields[i] = strings.Join(keyVal, ":")
+		}
+		return ixscan[:open+1] + strings.Join(fields, ",") + ixscan[end:]
+	})
 }
 
 func traverseMapPath(path []string, operatorMap *orderedmap.OrderedMap[string, any], isSearchStage bool) (interface{}, bool) {
